@@ -1,13 +1,16 @@
 use tiny_skia::*;
 fn main() {
-    let line = std::fs::read_to_string("/tmp/c5a.txt").unwrap();
-    for l in line.lines() {
-        let a: Vec<i128> = l.split_whitespace().skip(1).map(|v| v.parse().unwrap()).collect();
-        let p = verif_harness::c02::build_path(&a[5..]).unwrap();
-        println!("{:?}", p);
-        let f = |b: i128| f32::from_bits(b as u32);
-        let st = Stroke { width: f(a[0]), miter_limit: f(a[1]), line_cap: [LineCap::Butt, LineCap::Round, LineCap::Square][a[2] as usize % 3], line_join: [LineJoin::Miter, LineJoin::MiterClip, LineJoin::Round, LineJoin::Bevel][a[3] as usize % 4], dash: None };
-        let o = p.stroke(&st, f(a[4])).unwrap();
-        for s in o.segments() { println!("{:?}", s); }
+    let mut src = Pixmap::new(8, 8).unwrap();
+    src.fill(Color::from_rgba8(255, 255, 255, 255));
+    for op in [1.0f32, 0.5, 0.2] {
+        let mut pm = Pixmap::new(8, 8).unwrap();
+        let mut paint = Paint::default();
+        paint.shader = Pattern::new(src.as_ref(), SpreadMode::Pad, FilterQuality::Nearest, op, Transform::identity());
+        paint.anti_alias = true;
+        let mut pb = PathBuilder::new();
+        pb.move_to(1.5, 1.5); pb.line_to(6.5, 1.5); pb.line_to(6.5, 6.5); pb.line_to(1.5, 6.5); pb.close();
+        let p = pb.finish().unwrap();
+        pm.fill_path(&p, &paint, FillRule::Winding, Transform::identity(), None);
+        println!("opacity {} -> edge {:?} inside {:?}", op, pm.pixel(1, 3).unwrap(), pm.pixel(3, 3).unwrap());
     }
 }
